@@ -122,8 +122,19 @@ func c07Forced(kind string, rng *Rng) {
 		var r2 Resp
 		var hung bool
 		next := rng.Bytes(30000)
+		var more [][]byte
+		var moreR []Resp
 		if second == "overwrite" {
 			r2, hung = doDeadline(s.h, Req{Method: "PUT", Path: "/" + b + "/k", Body: next}, 5*time.Second)
+			// several more writes while the download is stalled (storage freed by one write may be
+			// reused by a later one: the download must not be reading it)
+			for _, sz := range []int{90000, 20, 60000} {
+				nb := rng.Bytes(sz)
+				rr, h2 := doDeadline(s.h, Req{Method: "PUT", Path: "/" + b + "/k", Body: nb}, 5*time.Second)
+				hung = hung || h2
+				more, moreR = append(more, nb), append(moreR, rr)
+				doDeadline(s.h, Req{Method: "PUT", Path: "/" + b + "/scratchpad", Body: rng.Bytes(40000)}, 5*time.Second)
+			}
 		} else {
 			r2, hung = doDeadline(s.h, Req{Method: "DELETE", Path: "/" + b + "/k"}, 5*time.Second)
 		}
@@ -137,6 +148,10 @@ func c07Forced(kind string, rng *Rng) {
 		if second == "overwrite" {
 			s.emitPut(b, "k", next, r2)
 			neu = next
+			for i := range more {
+				s.emitPut(b, "k", more[i], moreR[i])
+				neu = more[i]
+			}
 		} else {
 			s.emitOp("del", []string{hs(b), hs("k")}, obsT{r: r2})
 		}
@@ -350,7 +365,7 @@ func runC07Race(tier string, seed uint64) {
 		mpSlowPart("c07", kind)
 		c07MultipartRounds(kind, rng, 8)
 	}
-	c07Rounds("mem", rng, 8, 5, true)
+	c07Rounds("mem", rng, 8, 4, true)
 	c07VersionStress(rng, 8, 30)
 }
 
@@ -375,7 +390,7 @@ func runC07(tier string, seed uint64) {
 		}
 		if kind == "mem" {
 			for rep := 0; rep < reps; rep++ {
-				c07Rounds(kind, rng, rounds, 5, true)
+				c07Rounds(kind, rng, rounds, 4, true)
 			}
 		}
 		c07MultipartForced(kind)
@@ -387,5 +402,5 @@ func runC07(tier string, seed uint64) {
 	sample("forced interleavings on every backend: a PUT whose body reader is gated (slow uploader) while a GET of the same key, a PUT of another key and a listing by other clients must complete and see the old object; a GET whose ResponseWriter is gated (slow reader) overlapped by an overwrite and by a delete of the same key — the download must deliver in full the object it captured; on the fs backends a slow upload of K/x overlapped by an upload of K (and the other way round): every acknowledged upload is served afterwards")
 	sample("16 clients x 40 simultaneous versioned PUTs (two thirds on one hot key) on the memory backend: every acknowledged upload has a version id of its own under which exactly its bytes are served; the same workload (reduced) runs in a binary built with -race, whose reports on gofakes3 code are violations")
 	sample("multipart: the backend write of a CompleteMultipartUpload is held open while a part upload, a second complete, an abort and a part listing of the same upload arrive (both must finish; responses must have a sequential explanation); rounds of 2..5 simultaneous part uploads / completes / aborts / part listings / reads over 2..3 pending uploads on 1..2 keys, searched for a sequential order on the model")
-	sample("rounds of 2, 4, 6 and 16 simultaneous requests (put with unique bodies / get / head / delete / copy over 1..4 keys; memory backend also with versioning enabled): a round is accepted iff some sequential order of its requests reproduces every observed response (status, body, ETag, length, version id) on the model — searched per key for single-key rounds, over all permutations for rounds with a copy")
+	sample("rounds of 2, 4, 6 and 16 simultaneous requests (put with unique bodies / get / head / delete / copy over 1..4 keys; memory backend also with versioning enabled, 4 requests per round): a round is accepted iff some sequential order of its requests reproduces every observed response (status, body, ETag, length, version id) on the model — searched per key for single-key rounds, over all permutations for rounds with a copy")
 }
